@@ -1,5 +1,5 @@
 (** * C09 — Annual results do not depend on how time is laid out *)
-From Cteepbd Require Import Model.Balance Proofs.ColFacts Proofs.EpFacts Proofs.DataEquiv Proofs.Homog Proofs.Transform Proofs.TimeLayout.
+From Cteepbd Require Import Model.Balance Proofs.ColFacts Proofs.EpFacts Proofs.DataEquiv Proofs.Homog Proofs.Transform Proofs.TimeLayout Proofs.WfFacts Proofs.NormLayout.
 Open Scope Qc_scope.
 
 (** reordering the time steps of all components by the same permutation [sigma] of 0..n-1:
@@ -43,6 +43,41 @@ Theorem C09_subdivide_annual : forall m n cr lm data g, (0 < m)%nat -> wf n data
   ann (mk_ctx cr lm (sub_data m data)) g = ann (mk_ctx cr lm data) g.
 Proof. intros m n cr lm data g Hm Hwf D D' Hg. apply (ann_sub m); try assumption; now apply dom_data_cols. Qed.
 
+(** ** from the declared components: normalisation (completion of ambient heat / solar thermal energy, assignment of the
+    auxiliary energy by output shares, sort) commutes with both re-layouts, so the statements above apply to what a file
+    declares and not only to normalised component lists *)
+Theorem C09_normalize_perm : forall sigma n data, Permutation sigma (seq 0 n) -> wf n data ->
+  Components.normalize_data (perm_data sigma data)
+  = match Components.normalize_data data with Ok d => Ok (perm_data sigma d) | Err e => Err e end.
+Proof. exact normalize_perm. Qed.
+
+Theorem C09_normalize_subdivide : forall m n data, (0 < m)%nat -> wf n data ->
+  Components.normalize_data (sub_data m data)
+  = match Components.normalize_data data with Ok d => Ok (sub_data m d) | Err e => Err e end.
+Proof. exact normalize_sub. Qed.
+
+Theorem C09_perm_declared : forall sigma n meta nd fs k area lm data d,
+  Permutation sigma (seq 0 n) -> wf n data -> Components.normalize_data data = Ok d ->
+  Components.normalize_data (perm_data sigma data) = Ok (perm_data sigma d) /\
+  ep_rel perm_rel (energy_performance (mkComponents meta d nd) fs k area lm)
+                  (energy_performance (mkComponents meta (perm_data sigma d) nd) fs k area lm).
+Proof.
+  intros sigma n meta nd fs k area lm data d Hs W H. split.
+  - rewrite (normalize_perm sigma n data Hs W), H. reflexivity.
+  - apply (perm_invariant sigma n); [exact Hs|]. exact (normalize_wf n data d W H).
+Qed.
+
+Theorem C09_subdivide_declared : forall m n meta nd fs k area lm data d, (0 < m)%nat -> wf n data ->
+  Components.normalize_data data = Ok d -> dom_data d -> dom_data (sub_data m d) ->
+  Components.normalize_data (sub_data m data) = Ok (sub_data m d) /\
+  ep_rel (sub_rel m) (energy_performance (mkComponents meta d nd) fs k area lm)
+                     (energy_performance (mkComponents meta (sub_data m d) nd) fs k area lm).
+Proof.
+  intros m n meta nd fs k area lm data d Hm W H D D'. split.
+  - rewrite (normalize_sub m n data Hm W), H. reflexivity.
+  - apply (sub_invariant m n); try assumption; [exact (normalize_wf n data d W H)| |]; intros cr; now apply dom_data_cols.
+Qed.
+
 (** equal weighted parts and k give equal step A / step B weighted energy *)
 Theorem C09_same_results : forall R b b', bal_rel R b b' -> bc_we b = bc_we b'.
 Proof. intros R b b' (_ & P & K). unfold bc_we. now rewrite P, K. Qed.
@@ -58,3 +93,7 @@ Print Assumptions C09_perm_annual.
 Print Assumptions C09_subdivide.
 Print Assumptions C09_subdivide_annual.
 Print Assumptions C09_same_results.
+Print Assumptions C09_normalize_perm.
+Print Assumptions C09_normalize_subdivide.
+Print Assumptions C09_perm_declared.
+Print Assumptions C09_subdivide_declared.
